@@ -1378,7 +1378,21 @@ func judge(c Case, o *vh.Obs) {
 				o.Discard()
 				return
 			}
-			res, rerr = src.Correct(opts...)
+			// the caller's options are used twice
+			full := make([]schema.Option, len(opts), len(opts)+3)
+			copy(full, opts)
+			res, rerr = src.Correct(full...)
+			if rerr == nil && res != nil {
+				again, err2 := src.Correct(full...)
+				if err2 != nil {
+					o.Failf("correct:options-consumed", "the same options corrected the same envelope once and are refused the second time: %v", err2)
+					return
+				}
+				if a, b := docSansUUID(res), docSansUUID(again); a != b {
+					o.Failf("correct:options-consumed", "correcting the same envelope twice with the same option values gives different documents: %.300s vs %.300s", firstDiffText(a, b), firstDiffText(b, a))
+					return
+				}
+			}
 		}
 		if rerr != nil {
 			out.err = rerr.Error()
@@ -2224,7 +2238,7 @@ func genCase(t *rapid.T) Case {
 func init() {
 	vh.Describe(
 		"Cases = (corpus invoice, option vector, entry point). Source: every example invoice of the repository (73, all regimes and addons), calculated, validated, optionally signed with a generated key and stamped in the header with each provider the published definition requires (present / absent / an unrelated one), optionally with its code removed (or, for the examples without one, a code added), optionally with value_date / op_date. "+
-			"Option vector: type in every published invoice type + {absent, an undefined key}; reason absent/set; ext: each offered key with its first/last published code and an unpublished code, all offered keys, a published key the definition does not offer, an undefined key; required stamps in the header / missing one by one / all missing / handed over in the options; series; issue date; copy_tax; passed as functional options, bill.WithOptions(struct), bill.WithData(JSON) and CLI flags. "+
+			"Option vector: type in every published invoice type + {absent, an undefined key}; reason absent/set; ext: each offered key with its first/last published code and an unpublished code, all offered keys, a published key the definition does not offer, an undefined key; required stamps in the header / missing one by one / all missing / handed over in the options; series; issue date; copy_tax; passed as functional options, bill.WithOptions(struct), bill.WithData(JSON) and CLI flags; on the library path the same option values are used for two corrections of the same envelope, which must give the same document (options consumed by the first correction would starve the second). "+
 			"Entry points: Envelope.Correct / Replicate, in-process internal/cli Correct / Replicate (envelope and bare-document input), cli.Bulk correct / replicate requests, and the gobl executable (sampled). "+
 			"Oracle: (1) json.Marshal(source) and a reflection dump of everything reachable from the source (unexported fields, signatures) are identical before the call, after it, and after the result was recalculated, stamped (AddStamp overwrites in place), signed, had rows appended and had every reachable scalar, map entry and slice element overwritten in place (undone afterwards). "+
 			"(2) refusal model from data/regimes + data/addons `corrections` (types/extensions/stamps concatenated regime then addons, reason_required OR-ed): refused iff type missing, source without code, a required stamp missing, types defined and the type not among them, reason required and empty, or the edited source does not calculate; CLI/bulk/exec additionally iff the expected result does not validate. The code must refuse exactly then. "+
@@ -2241,4 +2255,35 @@ func init() {
 	vh.Enum("sweep", enumSweep, judge)
 	vh.Enum("exec", enumExec, judge)
 	vh.Rapid("random", 6_000, 400_000, genCase, judge)
+}
+
+// docSansUUID serialises the document of an envelope without its identifier.
+func docSansUUID(env *gobl.Envelope) string {
+	raw, err := json.Marshal(env.Document)
+	if err != nil {
+		return "unserialisable: " + err.Error()
+	}
+	var m map[string]any
+	if json.Unmarshal(raw, &m) != nil {
+		return string(raw)
+	}
+	delete(m, "uuid")
+	out, _ := json.Marshal(m)
+	return string(out)
+}
+
+// firstDiffText returns a around the first position where it differs from b.
+func firstDiffText(a, b string) string {
+	i := 0
+	for i < len(a) && i < len(b) && a[i] == b[i] {
+		i++
+	}
+	lo, hi := i-60, i+120
+	if lo < 0 {
+		lo = 0
+	}
+	if hi > len(a) {
+		hi = len(a)
+	}
+	return a[lo:hi]
 }
